@@ -122,9 +122,32 @@ Fixpoint set_capabilities (v : ver) (caps : list (Z * list range)) (m : log) : r
 (* Target.Version(spec): NewDefaultVersion(spec) has an empty map *)
 Definition version_of (v : ver) (caps : list (Z * list range)) : res := set_capabilities v caps [].
 
+(* ---- defaultVersion.go used directly by a caller.  `alive` = the map was allocated (NewDefaultVersion);
+   the zero value DefaultVersion{} has a nil map: reading it (Has) answers false, the assignment
+   v.capabilities[cap] = b in SetCapability panics.  Copies of a DefaultVersion value share the map. *)
+Definition dv_set (alive : bool) (m : log) (id : Z) (b : bool) : option log :=   (* None = panic *)
+  if alive then Some ((id, b) :: m) else None.
+
+(* Target.SetCapabilities(v) on an existing Version whose SetCapability calls so far are m (the loops never
+   read the map).  On a nil map the FIRST SetCapability call panics; everything in front of it (validity
+   checks, comparisons, their errors) happens as usual. *)
+Inductive sres : Type :=
+| SRes (r : res)
+| SPanic.
+
+Definition set_capabilities_on (alive : bool) (v : ver) (caps : list (Z * list range)) (m : log) : sres :=
+  if alive then SRes (set_capabilities v caps m)
+  else match set_capabilities v caps [] with
+       | Ok [] => SRes (Ok [])
+       | Err e [] => SRes (Err e [])
+       | _ => SPanic
+       end.
+
 End Model.
 
 Arguments COk {ver}.
 Arguments CErr {ver}.
 Arguments Ok {ver}.
 Arguments Err {ver}.
+Arguments SRes {ver}.
+Arguments SPanic {ver}.
